@@ -19,7 +19,7 @@ import re
 import common as C
 
 PID = "C03"
-CLASS_NAMES = {5: "validity_same_second"}   # codes 1-4 were the classes repaired in the fix wave
+CLASS_NAMES = {}   # no finding class is left (codes 1-4: fix wave 1; 5 validity_same_second: fix wave 3)
 USER = "u@example.com"
 MSG = "From: a@example.com\r\nTo: u@example.com\r\nSubject: s%d\r\n\r\nbody %d\r\n"
 SEL_KINDS = ("uidcopy", "copy", "uidstore", "expunge", "close")
